@@ -38,7 +38,7 @@ macro_rules! family {
                 let s = match r.below(6) { 0 => 1e-15, 1 => 1e12, 2 => 1e-6, _ => 1.0 } * r.range(0.3, 3.0);
                 loop {
                     let v = <$V3>::new((r.normal() * s) as $S, (r.normal() * s) as $S, (r.normal() * s) as $S);
-                    if v.length_squared() > 0.0 { return v; }
+                    if v.length_squared() >= <$S>::MIN_POSITIVE * 16.0 { return v; }
                 }
             }
             pub const NOPS: usize = 46;
@@ -205,9 +205,21 @@ pub fn run(mon: &mut Monitor, args: &Args) {
     }
     chains!(f32f);
     chains!(f64f);
+    {
+        use crate::c20v::{d2, d3, d4, v2, v3, v3a, v4};
+        chains!(v2);
+        chains!(v3);
+        chains!(v3a);
+        chains!(v4);
+        chains!(d2);
+        chains!(d3);
+        chains!(d4);
+    }
     if let Some(s) = sink.as_mut() { s.finish(); }
     if !tracing {
         documented_violations(mon, on);
+        crate::c20v::documented_violations(mon, on);
+        crate::c20v::normalize_windows(mon);
     }
 }
 
